@@ -68,7 +68,9 @@ PROPS = {
                 families=[eng("engine", "C10", 1200, 20000, ["issues", "first", "panic"]),
                           dict(name="fe", family="fe", profile="fe", quick=700, thorough=8000, tags=["issues", "first", "panic", "nested_source_tag"])]),
     "C12": dict(theorems=["C12_engine_computes_semantics", "C12_test_receives_the_tested_value", "C12_pts_prefix_in_order", "C12_pts_skipped_when_an_issue_exists", "C12_preprocess_error_skips_schema", "C12_preprocess_type_mismatch_skips_schema", "C12_ctx_values_are_this_calls"], cone=ENGINE_CONE + ["Proofs/ExactP.v", "Model/Objects.v", "Proofs/ObjectsP.v"], rule=ENGINE_RULE,
-                families=[eng("engine", "C12", 1200, 20000, ["calls", "args", "ctx", "haserr", "panic"])]),
+                families=[eng("engine", "C12", 1200, 20000, ["calls", "args", "ctx", "haserr", "panic"]),
+                          # callbacks after arbitrary earlier calls (undecodable request bodies included): still their own node, still this call's context
+                          dict(name="history", family="history", profile="C07", quick=500, thorough=6000, tags=["calls", "args", "ctx", "panic"])]),
     "C11": dict(theorems=["C11_catalogue_ok_partial", "C11_custom_refuted", "C11_no_placeholder_left", "C11_precedence_test", "C11_precedence_exec",
                           "C11_precedence_global", "C11_i18n_uses_context_language", "C11_i18n_falls_back_to_default"],
                 cone=["Model/Fmt.v", "Proofs/FmtP.v", "Gen/Tables.v"],
